@@ -195,6 +195,7 @@ pub fn cmd_reasm(args: &[String]) -> i32 {
     let f = std::io::BufReader::new(std::fs::File::open(arg_val(args, "--cases").expect("--cases")).expect("open"));
     let mut o = std::io::BufWriter::new(std::fs::File::create(arg_val(args, "--out").expect("--out")).expect("create"));
     let mut n = 0;
+    let mut stuck = false;
     for line in f.lines() {
         let c: Value = serde_json::from_str(&line.unwrap()).expect("json");
         let bytes: Vec<u8> = c["bytes"].as_array().unwrap().iter().map(|x| x.as_u64().unwrap() as u8).collect();
@@ -202,13 +203,31 @@ pub fn cmd_reasm(args: &[String]) -> i32 {
         let src = c["src"].as_str().unwrap();
         let size = c["size"].as_u64().unwrap();
         let drains: Vec<i64> = c["drains"].as_array().map(|a| a.iter().map(|x| x.as_i64().unwrap_or(-1)).collect()).unwrap_or_default();
-        let (got, verdicts, panic) = match (src, size) {
-            ("file", 1) => reasm_file::<u8>(&bytes, &pieces),
-            ("file", 4) => reasm_file::<u32>(&bytes, &pieces),
-            ("file", _) => reasm_file::<Complex>(&bytes, &pieces),
-            ("tcp", 1) => reasm_tcp::<u8>(&bytes, &pieces, &drains),
-            ("tcp", 4) => reasm_tcp::<Float>(&bytes, &pieces, &drains),
-            _ => reasm_tcp::<Complex>(&bytes, &pieces, &drains),
+        // Each case runs in its own thread under a watchdog: a source that lost bytes can block
+        // for ever in a read the harness expected to find data for. That is an outcome ("hung"),
+        // not a harness failure; the stuck thread is left behind and the process exits at the end.
+        let (tx, rx) = std::sync::mpsc::channel();
+        {
+            let (bytes, pieces, drains, src) = (bytes.clone(), pieces.clone(), drains.clone(), src.to_string());
+            std::thread::spawn(move || {
+                rustradio::verif::set_thread_stream_size(4096);
+                let r = match (src.as_str(), size) {
+                    ("file", 1) => reasm_file::<u8>(&bytes, &pieces),
+                    ("file", 4) => reasm_file::<u32>(&bytes, &pieces),
+                    ("file", _) => reasm_file::<Complex>(&bytes, &pieces),
+                    ("tcp", 1) => reasm_tcp::<u8>(&bytes, &pieces, &drains),
+                    ("tcp", 4) => reasm_tcp::<Float>(&bytes, &pieces, &drains),
+                    _ => reasm_tcp::<Complex>(&bytes, &pieces, &drains),
+                };
+                let _ = tx.send(r);
+            });
+        }
+        let (got, verdicts, panic) = match rx.recv_timeout(std::time::Duration::from_secs(30)) {
+            Ok(r) => r,
+            Err(_) => {
+                stuck = true;
+                (Vec::new(), Vec::new(), "hung: the case did not finish within 30 s (a read that blocks for ever)".to_string())
+            }
         };
         writeln!(o, "{}", json!({"ev": "reasm", "src": src, "size": size, "bytes": bytes, "pieces": pieces,
             "out": got, "verdicts": verdicts, "panic": panic})).unwrap();
@@ -216,6 +235,9 @@ pub fn cmd_reasm(args: &[String]) -> i32 {
     }
     o.flush().unwrap();
     println!("{}", json!({"events": n}));
+    if stuck {
+        std::process::exit(0);
+    }
     0
 }
 
